@@ -94,9 +94,13 @@ Definition quiet07 (x : cm) : bool :=
       every request whose handler had been invoked before the signal got its complete response *)
    && (negb (Nat.eqb (m_begun x) (m_envdone x)) || (m_done x && Nat.leb (m_hb x) (m_resp x)))).
 
-Definition chk07 (m : ms) (o : oev) : bool :=
+(* [strict]: no driver at all is spawned after the signal; otherwise a connection that the acceptor
+   had handed over BEFORE the signal resolved may still get its driver (the signal can resolve while
+   that connection is in State::Making) *)
+Definition chk07_gen (strict : bool) (m : ms) (o : oev) : bool :=
   match o with
-  | OAccept _ | OSpawn _ => negb (k_fired m)                 (* accepts no further connections *)
+  | OAccept _ => negb (k_fired m)                              (* accepts no further connections *)
+  | OSpawn c => negb (k_fired m) || (negb strict && m_accepted (k_snap m c))   (* ... and serves none *)
   | OServer r => negb (k_fired m) || r                         (* completes successfully *)
   | OTold c => Nat.eqb (m_told (k_conns m c)) 0                (* told at most once *)
   | OHandler c => negb (k_fired m && idle_cm (k_snap m c))     (* an idle connection serves no further request *)
@@ -105,6 +109,9 @@ Definition chk07 (m : ms) (o : oev) : bool :=
       || (match k_server m with Some _ => true | None => false end && all_conns m quiet07)
   | _ => true
   end.
+Definition chk07 := chk07_gen false.
+(* what the model satisfies (its make-service resolves the signal only after the spawn) *)
+Definition chk07_strict := chk07_gen true.
 Definition mon_C07 (tr : list oev) : bool := mon_from chk07 ms0 tr.
 
 (* ------------------------------------------------------------------------------------ C09
